@@ -24,6 +24,13 @@ Definition stable_sort_range (cmp : Z -> Z -> bool) (l : list Z) (a b : Z) : lis
   firstn (Z.to_nat a) l ++ SetModel.ssort cmp (sub l a b) ++ skipn (Z.to_nat b) l.
 Definition inplace_merge_range (cmp : Z -> Z -> bool) (l : list Z) (a m b : Z) : list Z :=
   firstn (Z.to_nat a) l ++ SetModel.smerge cmp (sub l a m) (sub l m b) ++ skipn (Z.to_nat b) l.
+(* std::adjacent_find(begin()+a, begin()+b, p): position of the first element whose successor satisfies p with it, b if none *)
+Fixpoint adj_find (p : Z -> Z -> bool) (l : list Z) : nat :=
+  match l with
+  | a :: ((b :: _) as t) => if p a b then O else S (adj_find p t)
+  | _ => length l
+  end.
+Definition adjacent_find_z (l : list Z) (a b : Z) (p : Z -> Z -> bool) : Z := a + Z.of_nat (adj_find p (sub l a b)).
 (* _sortedVector.erase(std::unique(begin(), end(), pred), end()): the first element of every run of pred-equal neighbours *)
 Fixpoint erase_unique (eq : Z -> Z -> bool) (l : list Z) : list Z :=
   match l with
